@@ -494,7 +494,7 @@ DROPPERS = ("retain", "retain_mut", "filter", "filter_map", "take_while", "skip_
             "take", "skip", "step_by", "swap_remove", "remove", "extract_if", "drain_filter")
 
 
-def check_unfiltered(rep, ctx, rule, key, anchor_body, ctx_adt, param_idx, what):
+def check_unfiltered(rep, ctx, rule, key, anchor_body, ctx_adt, param_idx, what, starts=None):
     """no element-dropping operation is applied to (a copy / view of) the request list before it is judged and used:
     `v.retain(|b| *b <= cap)` in front of an "unsupported bound" refusal makes that refusal dead and silently answers a
     request that had to be refused. `sort` / `dedup` keep every distinct element and are fine."""
@@ -502,9 +502,9 @@ def check_unfiltered(rep, ctx, rule, key, anchor_body, ctx_adt, param_idx, what)
     f = ctx.facts
     g = Graph(f, f.closure([anchor_body.id], ctx_adt), [anchor_body.id], ctx_adt)
     # views and copies of the list: container-preserving moves plus `to_vec` / `clone` / `unwrap` / `map` over the Option
-    seen = {(anchor_body.id, param_idx)}
+    seen = set(starts) if starts is not None else {(anchor_body.id, param_idx)}
     dq = deque(seen)
-    COPY = ("to_vec", "clone", "to_owned", "unwrap", "expect", "as_ref", "as_deref", "map", "unwrap_or_default", "cloned", "into",
+    COPY = ("copied", "enumerate", "rev", "by_ref", "peekable", "from_residual", "to_vec", "clone", "to_owned", "unwrap", "expect", "as_ref", "as_deref", "map", "unwrap_or_default", "cloned", "into",
             "as_slice", "deref", "deref_mut", "as_mut", "iter", "into_iter", "collect", "sorted", "branch", "ok_or")
     while dq:
         n = dq.popleft()
